@@ -16,8 +16,9 @@ its own argument (and without it the cached ones are reused whatever the argumen
 affine integrand — which is what the analytic branch computes; over ℝ, for an integrand that is affine on every grid
 interval, the selected value IS the integral `∫₁^{zp1 i} G` (no quadrature error).
 
-NOT proved here (partial): the quadrature error bound `|trapezoid - ∫ G| ≤ Σ h³ max|G''| / 12` for a smooth integrand, and
-that `sympy.integrate` returns an antiderivative.  Both are tested on the real code against `scipy.integrate.quad`.
+The quadrature error bound `|trapezoid - ∫ G| ≤ Σ h³ max|G''| / 12` for a smooth integrand is in `Props/C19b.lean`.
+NOT proved (partial): that `sympy.integrate` returns an antiderivative (tested on the real code against the numerical
+path and `scipy.integrate.quad`), and floating-point rounding.
 -/
 namespace ESR.C19
 open ESR.Panth ESR.Gen
